@@ -11,15 +11,18 @@ import zlib
 
 from .spec import WIDTH
 
-REGISTERED_ALGOS = ('SUM8', 'CRC16', 'CRC32', 'CRC64')
+REGISTERED_ALGOS = ('SUM8', 'CRC16', 'CRC32', 'CRC64', 'Xor8', 'Add16', 'Mix32', 'Mix64')   # names are case-sensitive
 ALGO_WIDTH = {'SUM8': 1, 'CRC16': 2, 'CRC32': 4, 'CRC64': 8}
 ALGO_FOR_WIDTH = {1: 'SUM8', 2: 'CRC16', 4: 'CRC32', 8: 'CRC64'}
+ALGO_MIXED_FOR_WIDTH = {1: 'Xor8', 2: 'Add16', 4: 'Mix32', 8: 'Mix64'}
 
 
 def algo(name, data, width):
     """the stand-in checksum services' definition (every runtime implements exactly this)."""
     mask = (1 << (8 * width)) - 1
     c = zlib.crc32(bytes(data)) & 0xffffffff
+    if name not in REGISTERED_ALGOS:
+        return None
     if name == 'SUM8':
         return sum(data) & 0xff & mask
     if name == 'CRC16':
@@ -28,6 +31,17 @@ def algo(name, data, width):
         return c & mask
     if name == 'CRC64':
         return ((c << 32) | (c ^ 0xffffffff)) & mask
+    if name == 'Xor8':
+        x = 0
+        for b in bytes(data):
+            x ^= b
+        return x & mask
+    if name == 'Add16':
+        return sum(data) & 0xffff & mask
+    if name == 'Mix32':
+        return (c ^ 0x5a5a5a5a) & mask
+    if name == 'Mix64':
+        return (((c << 32) | c) ^ 0x0123456789abcdef) & mask
     return None
 
 
